@@ -733,7 +733,17 @@ func cmdReplay(path string) int {
 }
 
 func main() {
-	debug.SetGCPercent(1000)
+	if at := os.Getenv("VERIF_HEAPAT"); at != "" {
+		n, _ := strconv.Atoi(at)
+		go func() {
+			time.Sleep(time.Duration(n) * time.Second)
+			f, _ := os.Create("/tmp/heap-during.prof")
+			pprof.WriteHeapProfile(f)
+			f.Close()
+		}()
+	}
+	debug.SetGCPercent(150)
+	debug.SetMemoryLimit(10 << 30)
 	if len(os.Args) < 2 {
 		fmt.Fprintln(os.Stderr, "usage: vcheck run <PROP> [flags] | replay <path> | selftest")
 		os.Exit(2)
@@ -754,6 +764,7 @@ func main() {
 			os.Exit(2)
 		}
 		cpuprof := fs.String("cpuprofile", "", "write CPU profile")
+		memprof := fs.String("memprofile", "", "write heap profile at the end")
 		fs.Parse(os.Args[3:])
 		if *cpuprof != "" {
 			f, _ := os.Create(*cpuprof)
@@ -764,6 +775,11 @@ func main() {
 		code := cmdRun(os.Args[2], runOpts{tier: *tier, solver: *solver, workers: *workers, only: *only, noReplay: *noReplay,
 			maxPaths: *maxPaths, progress: *progress, minutes: *minutes, seed: seed})
 		pprof.StopCPUProfile()
+		if *memprof != "" {
+			f, _ := os.Create(*memprof)
+			pprof.WriteHeapProfile(f)
+			f.Close()
+		}
 		os.Exit(code)
 	case "replay":
 		if len(os.Args) < 3 {
